@@ -22,6 +22,10 @@ def Attrs.update (old new : Attrs) : Attrs :=
     resid := new.resid.orElse (fun _ => old.resid),
     cg := new.cg.orElse (fun _ => old.cg) }
 
+/-- `new_atom['resid'] = new_atom.get('resid', 1) + offset`, same for the charge group -/
+def Attrs.shift (a : Attrs) (roff coff : Int) : Attrs :=
+  { a with resid := some (a.resid.getD 1 + roff), cg := some (a.cg.getD 1 + coff) }
+
 structure Inter where
   atoms   : List Int
   params  : String
@@ -183,8 +187,7 @@ def Mol.merge (self other : Mol) : Mol × Outcome :=
   | some (offset, roff, coff) =>
     let okeys := other.keys
     let newNodes := enumFrom (offset + 1)
-      (other.nodes.map (fun p => (p.1, { p.2 with resid := some (p.2.resid.getD 1 + roff),
-                                               cg := some (p.2.cg.getD 1 + coff) })))
+      (other.nodes.map (fun p => (p.1, p.2.shift roff coff)))
     match renameInters okeys offset other.inters, renameEdges okeys offset other.edges with
     | some ri, some re =>
       let m1 : Mol := { self with nrexcl := nrexcl,
@@ -216,10 +219,9 @@ def nameIdx (names : List String) (off : Int) (n : String) : Option Int :=
 def Block.toMolecule (b : Block) (atomOff residOff cgOff : Int) : Option Mol := do
   let names := b.nodes.map Prod.fst
   let nodes := enumFrom atomOff
-    (b.nodes.map (fun p => ((0 : Int), { p.2 with resid := some (p.2.resid.getD 1 + residOff),
-                                            cg := some (p.2.cg.getD 1 + cgOff) })))
-  let inters ← b.inters.mapM (fun (t, at, pr, v) => do
-      let a ← at.mapM (nameIdx names atomOff)
+    (b.nodes.map (fun p => ((0 : Int), p.2.shift residOff cgOff)))
+  let inters ← b.inters.mapM (fun (t, ats, pr, v) => do
+      let a ← ats.mapM (nameIdx names atomOff)
       pure (t, ({ atoms := a, params := pr, version := v } : Inter)))
   let edges ← b.edges.mapM (fun (u, v) => do
       let u' ← nameIdx names atomOff u
